@@ -36,6 +36,25 @@ var c03Lookalikes = [][]byte{
 	[]byte("SSH-2.0-OpenSSH_8.9p1 Ubuntu-3\r\n"),
 }
 
+// forced tape prefixes in the order the scenario draws: workers, registry, [nclients], family, content, len
+var c03Enum = func() [][]int {
+	var out [][]int
+	for reg := 0; reg < 3; reg++ {
+		for fam := 0; fam < 4; fam += 3 {
+			for content := 0; content < 6; content++ {
+				for l := range c03Lens {
+					p := []int{1, reg}
+					if reg > 0 {
+						p = append(p, 2)
+					}
+					out = append(out, append(p, fam, content, l))
+				}
+			}
+		}
+	}
+	return out
+}()
+
 type c03Obs struct {
 	sent      int
 	returned  bool
@@ -49,11 +68,15 @@ func TestVerifC03(t *testing.T) {
 	sim.Main(t, sim.Config{
 		Prop:     "C03",
 		Scenario: c03Scenario,
+		// systematic part: registry kind x family x content kind x every threshold length; the
+		// remaining choices (cuts, pacing, prober behaviour, clients, schedule) are drawn from the seed
+		EnumN:  func(string) int { return len(c03Enum) },
+		EnumAt: func(_ string, i int) []int { return c03Enum[i] },
 		Runs:     map[string]int{"quick": 25000, "thorough": 800000},
 		LeakSig:  "",
 		Real:     []string{"cmd/application connManager.handleNewTCPConn (read loop, classification deadline, discard paths)", "min / prefix (all default prefixes) / obfs4 station transports", "RegistrationManager + ingest pipeline (registrations are ingested through HandleRegUpdates)", "client transports producing the genuine flights that are then corrupted"},
 		Stub:     []string{"TCP connection (simnet: segmentation, pacing, FIN/RST by the prober)", "liveness probes (table)", "detector (recorder)", "ZMQ (harness writes into the ingest channel)", "accept loop / original-destination lookup of handleNewConn (harness passes the phantom and closes the connection when the handler returns)"},
-		Rule: "random: probe stream = {random bytes, constant fills (00/ff/80/40/7f/01) alone and after a static prefix, every default static prefix + garbage, protocol look-alikes, genuine min/prefix/obfs4-sized flights of a REGISTERED client with one bit flipped inside the tag, threshold lengths} x 24 lengths 0..16 KiB x random k-cut segmentation x pacing (0..4.9 s pauses) x prober behaviour {hold, FIN, RST} x registry {empty, registrations on other phantoms only, 1-4 registrations (all transports) on the probed phantom}. " +
+		Rule: "enumerated: registry kind (3) x family (2) x content kind (6) x each of the 24 threshold lengths, other choices seeded; random: probe stream = {random bytes, constant fills (00/ff/80/40/7f/01) alone and after a static prefix, every default static prefix + garbage, protocol look-alikes, genuine min/prefix/obfs4-sized flights of a REGISTERED client with one bit flipped inside the tag, threshold lengths} x 24 lengths 0..16 KiB x random k-cut segmentation x pacing (0..4.9 s pauses) x prober behaviour {hold, FIN, RST} x registry {empty, registrations on other phantoms only, 1-4 registrations (all transports) on the probed phantom}. " +
 			"Each run is executed twice (twin): once with the generated content and once with uniformly random bytes of the same lengths, same schedule, same seeded deadline; the observable reaction must be identical. non-trivial = the probe reached the read loop with at least one registration on the probed phantom; distinct = (content kind, length, registry kind, prober behaviour, cuts, schedule) signatures",
 		Assume: []string{"harness test files built with //go:debug asynctimerchan=0", "the prober never holds a valid tag: bit flips are applied inside the tag / mark bytes only"},
 	})
